@@ -15,6 +15,7 @@ class IndexLoop:
         self.cont_paths = []     # paths reaching the back edge
         self.exh_paths = []
         self.problems = []
+        self.direction = None    # 'fwd' | 'rev'
 
 
 def _range_of(it):
@@ -48,10 +49,21 @@ def index_loop(body, h, enclosing_events=None, full=False):
                 il.kind = "for-range"
                 il.list_term = L
                 il.index = T("elem", it, nxt.a[1][2])
+                il.direction = it[2]
+            elif isinstance(it, tuple) and it[0] == "iter" and isinstance(it[1], tuple) and it[1][0] == "call" and method_name(it[1][1]) == "enumerate" \
+                    and isinstance(it[1][2][0], tuple) and it[1][2][0][0] == "iter":
+                # for (i, x) in xs.iter().enumerate()
+                il.kind = "for-elements"
+                il.list_term = mir.strip(it[1][2][0][1])
+                pair = T("elem", it, nxt.a[1][2])
+                il.elem = T("field", pair, "1")
+                il.index = T("field", pair, "0")
+                il.direction = it[1][2][0][2]
             elif isinstance(it, tuple) and it[0] == "iter":
                 il.kind = "for-elements"
                 il.list_term = mir.strip(it[1])
                 il.elem = T("elem", it, nxt.a[1][2])
+                il.direction = it[2]
             else:
                 il.problems.append("iterator %s" % show(it)[:50])
             if nxt.b == "None":
